@@ -543,7 +543,9 @@ func processFetchForMessage(deps ServerDeps, conn net.Conn, messageID, uid int64
 		headerEnd := strings.Index(msg, "\r\n\r\n")
 		headers := msg
 		if headerEnd != -1 {
-			headers = msg[:headerEnd+2] // include last CRLF
+			// The header section ends with the blank line (RFC 3501 6.4.5), so that
+			// BODY[HEADER] followed by BODY[TEXT] is the whole message
+			headers = msg[:headerEnd+4]
 		}
 		if literalData != "" {
 			literalData += " "
@@ -558,7 +560,9 @@ func processFetchForMessage(deps ServerDeps, conn net.Conn, messageID, uid int64
 		headerEnd := strings.Index(msg, "\r\n\r\n")
 		headers := msg
 		if headerEnd != -1 {
-			headers = msg[:headerEnd+2] // include last CRLF
+			// The header section ends with the blank line (RFC 3501 6.4.5), so that
+			// BODY[HEADER] followed by BODY[TEXT] is the whole message
+			headers = msg[:headerEnd+4]
 		}
 		if literalData != "" {
 			literalData += " "
